@@ -84,6 +84,64 @@ def cells(kind):
     return out
 
 
+def float_cells(kind):
+    """Witness cells for the floating instantiations, evaluated in IEEE double arithmetic: thresholds T-E / T+E that are EXACTLY representable and a value next to them whose distance to the target is not
+    (so that a classification computed from a rounded difference `value - target` shows).  The expected class is computed with exact rationals."""
+    from fractions import Fraction as Fr
+    tiny, sub = 1e-20, 5e-324
+    out = []
+    if kind == 'equal':
+        raw = [(1.0, 1.0, -tiny), (1.0, 1.0, -sub), (1.0, 1.0, tiny), (1.0, 1.0, 0.0), (-1.0, 1.0, tiny), (-1.0, 1.0, sub), (-1.0, 1.0, -tiny), (0.5, 0.25, 0.25 - 2.0 ** -60), (0.5, 0.25, 0.75 + 2.0 ** -52),
+               (0.5, 0.25, 0.25), (0.5, 0.25, 0.75), (1.0, 1.0, 2.0 + 2.0 ** -51), (1.0, 1.0, 2.0)]
+        for (T, E, v) in raw:
+            d = Fr(v) - Fr(T)
+            cls = 'ok' if abs(d) <= Fr(E) else 'low' if d < 0 else 'high'
+            out.append(('T=%r E=%r v=%r' % (T, E, v), {'v': v, 'T': T, 'E': E}, cls, 'OK' if cls == 'ok' else 'ERROR'))
+    elif kind == 'greater':
+        for (T, E, v) in [(1.0, 1.0, tiny), (1.0, 1.0, sub), (1.0, 1.0, 0.0), (1.0, 1.0, -tiny), (1.0, 1.0, -sub)]:
+            cls = 'ok' if Fr(v) > Fr(T) - Fr(E) else 'low'
+            out.append(('min=%r E=%r v=%r' % (T, E, v), {'v': v, 'T': T, 'E': E}, cls, 'OK' if cls == 'ok' else 'ERROR'))
+    elif kind == 'lower':
+        for (T, E, v) in [(-1.0, 1.0, -tiny), (-1.0, 1.0, -sub), (-1.0, 1.0, 0.0), (-1.0, 1.0, tiny), (-1.0, 1.0, sub)]:
+            cls = 'ok' if Fr(v) < Fr(T) + Fr(E) else 'high'
+            out.append(('max=%r E=%r v=%r' % (T, E, v), {'v': v, 'T': T, 'E': E}, cls, 'OK' if cls == 'ok' else 'ERROR'))
+    return out
+
+
+def feval(e, env):
+    """IEEE double evaluation of a path condition (binary operations only, in the order of the expression); None when the order of the operations is not determined by the tree."""
+    if e in (sp.true, sp.false):
+        return bool(e)
+    if isinstance(e, sp.Symbol):
+        return env.get(e.name)
+    if isinstance(e, sp.Number):
+        return float(e)
+    if isinstance(e, (sp.Add, sp.Mul)):
+        if len(e.args) != 2:
+            return None
+        a, b = feval(e.args[0], env), feval(e.args[1], env)
+        if a is None or b is None:
+            return None
+        return a + b if isinstance(e, sp.Add) else a * b
+    if isinstance(e, sp.Abs):
+        a = feval(e.args[0], env)
+        return None if a is None else abs(a)
+    if isinstance(e, (sp.Lt, sp.Le, sp.Gt, sp.Ge, sp.Eq, sp.Ne)):
+        a, b = feval(e.lhs, env), feval(e.rhs, env)
+        if a is None or b is None:
+            return None
+        return {sp.Lt: a < b, sp.Le: a <= b, sp.Gt: a > b, sp.Ge: a >= b, sp.Eq: a == b, sp.Ne: a != b}[type(e)]
+    if isinstance(e, sp.Not):
+        a = feval(e.args[0], env)
+        return None if a is None else (not a)
+    if isinstance(e, (sp.And, sp.Or)):
+        vs = [feval(a_, env) for a_ in e.args]
+        if any(v is None for v in vs):
+            return None
+        return all(vs) if isinstance(e, sp.And) else any(vs)
+    return None
+
+
 def run(fx, R, tier):
     R.floor('T1', 30)
     R.floor('T2', 20)
@@ -262,6 +320,34 @@ def check_checkup(fx, R, cq, kind):
             n_ok += 1
             if exhaustive_form:
                 R.holds('T1', inst, '%s -> %s, "%s"' % (desc, want, TEXT[kind][cls]), fx.rel(f['loc']), 'E-ORD')
+    # ---- T1 in IEEE arithmetic (floating instantiations): representable thresholds, a value next to them -------------
+    if kind != 'reliability' and any(t_ in cname for t_ in ('<double>', '<float>')) and '<float>' not in cname:
+        nf = 0
+        fcells = float_cells(kind)
+        for (desc, asg, cls, want) in fcells:
+            env = {'arg:value': asg['v'], 'this.value_to_compare_with_': asg['T'], 'this.epsilon_': asg['E']}
+            taken, unknown = [], False
+            for st in paths:
+                tv = [feval(c[1], env) for c in st.tconds]
+                if any(v is None for v in tv):
+                    unknown = True
+                    break
+                if all(v == c[2] for v, c in zip(tv, st.tconds)):
+                    taken.append(st)
+            if unknown or not taken:
+                R.undecided('T1', '%s::evaluate:ieee:%s' % (cname, desc.replace(' ', ',')), 'a threshold comparison is not evaluable in double arithmetic (operation order not determined by the expression)')
+                continue
+            got = [st.fields.get(STATUS) for st in taken]
+            got = [g for g in got if isinstance(g, sp.Symbol) and not g.name.startswith('this.')]
+            wrong = [g.name for g in got if g.name != want]
+            if wrong:
+                R.violated('T1', '%s::evaluate:%s:rounded-difference' % (cname, cls), 'for %s (thresholds exactly representable, |value - target| %s epsilon in exact arithmetic) the comparisons of evaluate(), '
+                           'carried out in IEEE double arithmetic, select %s; the statement requires %s: the classification is computed from a ROUNDED quantity (value - target absorbs a value that is tiny '
+                           'next to the target), so a value outside the band is accepted / one inside rejected' % (desc, '<=' if cls == 'ok' else '>', wrong[0], want), fx.rel(f['loc']), 'E-STEP')
+            else:
+                nf += 1
+        if nf == len(fcells):
+            R.holds('T1', '%s::evaluate:ieee' % cname, '%d cells with representable thresholds and values one rounding away from them classify as in exact arithmetic' % nf, fx.rel(f['loc']), 'E-STEP')
     if not exhaustive_form and n_ok == len(cells(kind)):
         R.undecided('T1', cname + ':operand-form', 'no witness cell disagrees, but a comparison is not of the form `value <op> T+-E` '
                     '(the cell partition is then not exhaustive for it): %s' % [c[0] for st in paths for c in st.tconds if not operand_form(c[1], kind)][:1])
